@@ -226,36 +226,45 @@ def idxLoop (net : Net) (start : Nat) :
       | .ok bad => idxLoop net start is (ban s bad reasonHeader) (dropPeers hs bad)
     else idxLoop net start is s hs
 
+/-- height of the stop hash of the at-tip request: the block tip, or the end of a maximum-size message -/
+def stopHeight (s : St) : Nat :=
+  let start := s.fstore.length
+  let btH := s.blocks.length - 1
+  if btH - start ≥ maxPerMsg then start + maxPerMsg - 1 else btH
+
+/-- number of filter hashes a well-formed answer must carry -/
+def batchLen (s : St) : Nat := stopHeight s - s.fstore.length + 1
+
+/-- error mapping of the final write -/
+def wToT : St × WOut → St × TOut
+  | (s3, .ok _ _) => (s3, .nil)
+  | (s3, .errPrev) => (s3, .errPrev)
+  | (s3, _) => (s3, .errOther)
+
+/-- the tail of `getUncheckpointedCFHeaders`: pick the first surviving peer and write its batch -/
+def commitPick (H : FHash → Hdr → Hdr) (s2 : St) (pick : Nat) (hs2 : List (Peer × Msg)) : St × TOut :=
+  match hs2[pick % hs2.length]? with
+  | none => (s2, .errAllBad)
+  | some pm =>
+    match s2.blocks[stopHeight s2]? with
+    | none => (s2, .errOther)
+    | some stopB => wToT (writeMsg H s2 pm.2.prev stopB pm.2.hashes)
+
 /-- `getUncheckpointedCFHeaders` -/
 def tipRound (H : FHash → Hdr → Hdr) (s : St) (net : Net) : St × TOut :=
   match s.fstore.getLast? with
   | none => (s, .errOther)
   | some tip =>
-    let ftH := s.fstore.length - 1
-    let btH := s.blocks.length - 1
-    if btH < ftH then (s, .errReorg) else
-    if btH = ftH then (s, .nil) else
-    let start := ftH + 1
-    let stopH := if btH - start ≥ maxPerMsg then start + maxPerMsg - 1 else btH
-    let n := stopH - start + 1
-    let hs0 := gather s net n
+    if s.blocks.length - 1 < s.fstore.length - 1 then (s, .errReorg) else
+    if s.blocks.length - 1 = s.fstore.length - 1 then (s, .nil) else
+    let hs0 := gather s net (batchLen s)
     let wrong := (hs0.filter (fun pm => pm.2.prev != tip)).map (·.1)
     let s1 := ban s wrong reasonHeader
     let hs1 := hs0.filter (fun pm => pm.2.prev == tip)
     if hs1.isEmpty then (s1, .errNoPeers) else
-    match idxLoop net start (List.range n) s1 hs1 with
+    match idxLoop net s.fstore.length (List.range (batchLen s)) s1 hs1 with
     | (s2, .error e) => (s2, e)
-    | (s2, .ok hs2) =>
-      match hs2[net.pick % hs2.length]? with
-      | none => (s2, .errAllBad)
-      | some pm =>
-        match s2.blocks[stopH]? with
-        | none => (s2, .errOther)
-        | some stopB =>
-          match writeMsg H s2 pm.2.prev stopB pm.2.hashes with
-          | (s3, .ok _ _) => (s3, .nil)
-          | (s3, .errPrev) => (s3, .errPrev)
-          | (s3, _) => (s3, .errOther)
+    | (s2, .ok hs2) => commitPick H s2 net.pick hs2
 
 /-! ### checkpoints -/
 
